@@ -41,6 +41,8 @@ pub struct Profile {
     pub shutdown_pct: u64,
     /// per-mille chance of an address-aliasing attack instead of a random op
     pub alias_pct: u64,
+    /// share of the 'same block' macro slot given to the pyramid macro
+    pub pyramid_pct: u64,
 }
 
 impl Default for Profile {
@@ -64,6 +66,7 @@ impl Default for Profile {
             heal_pct: 30,
             shutdown_pct: 25,
             alias_pct: 15,
+            pyramid_pct: 50,
         }
     }
 }
@@ -627,6 +630,20 @@ impl Gen {
                 let val = *self.rng.pick(&[59u64, 60, 900, 3600, 604_800, 604_801]);
                 self.vamm_cfg(h, r, v, |c| c.twap_interval = Some(val))
             }
+            13 if self.rng.chance(1, 2) => {
+                // re-point the fee pool (contract <-> plain account): fees must follow the configuration
+                let cur = h.last.eng.fee_pool.clone();
+                let next = if cur == h.w.fee_pool.to_string() { "feepool2".to_string() } else { h.w.fee_pool.to_string() };
+                let o = h.last.eng.owner.clone();
+                h.step(
+                    Op::Engine {
+                        sender: o,
+                        msg: eng::ExecuteMsg::UpdateConfig { owner: None, insurance_fund: None, fee_pool: Some(next), initial_margin_ratio: None, maintenance_margin_ratio: None, partial_liquidation_ratio: None, liquidation_fee: None },
+                        funds: 0,
+                    },
+                    r,
+                )
+            }
             12 => {
                 // combined engine update with crossing values
                 let a = *self.rng.pick(&[d / 40, d / 20, d / 10, d / 5]);
@@ -1147,6 +1164,56 @@ impl Gen {
         }
     }
 
+    /// Pyramid: several traders open on the same side one after another at high leverage; the early ones
+    /// take their profit out of a vault that holds only the others' margin (shortfall -> prepaid bad debt,
+    /// vault drained), then the late ones are liquidated with bad debt while some of it is already prepaid.
+    pub fn macro_pyramid(&mut self, h: &mut History, r: &mut Report) {
+        let v = self.pick_vamm(h);
+        if !h.last.vamms[v].open || !h.last.vamms[v].registered || h.last.eng.paused {
+            return;
+        }
+        let d = h.w.d;
+        let buy = self.rng.chance(1, 2);
+        let init = h.last.eng.initial.max(1);
+        let maxl = (d * d / init).max(d);
+        let q = h.last.vamms[v].q;
+        let k = self.rng.range(2, 4) as usize;
+        let mut who: Vec<&'static str> = vec![];
+        for i in 0..k {
+            let t = TRADERS[i];
+            // close whatever they hold first so the pyramid is clean
+            if h.last.pos(v, t).is_some() {
+                self.close(h, r, t, v, 0);
+            }
+            let frac = *self.rng.pick(&[20u128, 40, 80, 150]); // permille of the quote reserve
+            let lev = if i + 1 == k && self.rng.chance(1, 2) { d } else { maxl };
+            let n = q * frac / 1000;
+            let st = self.open(h, r, t, v, buy, (n * d / lev).max(1), lev, 0);
+            if st.out.ok {
+                who.push(t);
+            }
+            if self.rng.chance(1, 3) {
+                self.advance(h, r, 1, 6);
+            }
+        }
+        if who.len() < 2 {
+            return;
+        }
+        // the first one (deepest in profit) cashes out; sometimes the second too
+        let takers = if self.rng.chance(1, 3) { 2 } else { 1 };
+        for t in who.iter().take(takers) {
+            self.close(h, r, t, v, 0);
+        }
+        self.advance(h, r, 40, 910);
+        // liquidate the rest, lowest ratio first
+        for _ in 0..who.len() {
+            self.rand_liquidate(h, r);
+            if self.rng.chance(1, 3) {
+                self.advance(h, r, 1, 6);
+            }
+        }
+    }
+
     pub fn run_macro(&mut self, h: &mut History, r: &mut Report) {
         let ws = self.prof.w_macro;
         match self.rng.weighted(&ws) {
@@ -1160,7 +1227,13 @@ impl Gen {
                     self.macro_close_at_band(h, r)
                 }
             }
-            4 => self.macro_same_block(h, r),
+            4 => {
+                if self.rng.chance(self.prof.pyramid_pct, 100) {
+                    self.macro_pyramid(h, r)
+                } else {
+                    self.macro_same_block(h, r)
+                }
+            }
             5 => self.macro_admin_storm(h, r),
             6 => self.macro_reversal(h, r),
             7 => self.macro_boundary_leverage(h, r),
